@@ -42,6 +42,7 @@ def tasks(tier):
         ts.append(("reload d=%d" % d, "run_reload", dict(d=d)))
     ts.append(("reload uniform", "run_uniform", {}))
     ts.append(("negative volume warning", "run_warning", {}))
+    ts.append(("cached arrays", "run_cache", {}))
     ts.append(("fields", "run_fields", {}))
     ts.append(("templates", "run_templates", dict(tier=tier)))
     return ts
@@ -180,6 +181,66 @@ def run_uniform(col):
             and all(is_zero(P(a) - P(b)) for a, b in zip(dhdX.reshape(-1), it.getattr(reg1, "dhdX").reshape(-1))),
             "dV %s dhdX %s" % (dV.shape, dhdX.shape))
     col.add("C06.O6", "Region.uniform flag", "the region records that it is uniform", it.getattr(reg, "uniform") is True)
+    finish_info(col, it)
+
+
+CACHED = ("h", "dhdr", "dXdr", "drdX", "dV", "dhdX", "d2hdrdr", "d2hdXdX")
+
+
+def _same_cached(it, a, b, names=CACHED):
+    bad = []
+    for nm in names:
+        x, y = npmodel.to_obj(np.asarray(it.getattr(a, nm))), npmodel.to_obj(np.asarray(it.getattr(b, nm)))
+        if x.shape != y.shape or any(not is_zero(P(u) - P(v)) for u, v in zip(x.reshape(-1), y.reshape(-1))):
+            bad.append(nm)
+    return bad
+
+
+def run_cache(col):
+    """O7: the cached arrays (h, dhdr, dXdr, drdX, dV, dhdX, d2hdrdr, d2hdXdX) of copies / dtype casts carry the values of the arrays of
+    the same name; after the mesh points have changed, reload() / copy() recompute them for the current points"""
+    it = new_interp()
+    d, na, nq, nc = 2, 3, 2, 2
+    cls = it.get("felupe.region._region:Region")
+    w = method_where(cls, "astype")
+    pos = lambda a, b, op: ({"<": False, "<=": False, ">": True, ">=": True}[op] if (b.is_const() and b.const_value() == 0) else None)
+    ring.ORDER_ORACLE[0] = pos
+    try:
+        reg, mesh, el, qd = make_region(it, d, na, nq, nc, hess=True)
+        f32 = it.getattr(it.externals["numpy"], "float32") if hasattr(it, "externals") else None
+        for copy in (True, False):
+            src = it.call_method(reg, "copy", [])
+            bad0 = _same_cached(it, src, reg)
+            cast = it.call_method(src, "astype", [f32], dict(copy=copy))
+            bad = _same_cached(it, cast, reg)
+            col.add("C06.O7", "Region.astype(copy=%s)" % copy, "every cached array of the cast region carries the values of the original's array of the same name (basis, geometry, volumes, first and second physical derivatives)",
+                    not bad and not bad0, "%s: differing arrays %s (after copy(): %s)" % (w, bad, bad0))
+            col.add("C06.O7", "Region.astype(copy=%s) identity" % copy, "copy=True returns a new region and leaves the original's arrays in place; copy=False returns the region itself", (cast is not src) == copy)
+        # the mesh points move (mesh.update / in-place change), then the region is reloaded
+        w = method_where(cls, "reload")
+        newpts = symarray("Y", mesh.points.shape)
+        fresh_mesh = micro.FakeMesh(mesh.cells.tolist(), mesh.npoints, d)
+        fresh_mesh.points = newpts
+        fresh = it.call(cls, [fresh_mesh, el, qd], dict(grad=True, hess=True))
+        for how in ("reload()", "reload(mesh)", "copy()", "copy(mesh)"):
+            r0 = it.call(cls, [micro.FakeMesh(mesh.cells.tolist(), mesh.npoints, d), el, qd], dict(grad=True, hess=True))
+            m0 = it.getattr(r0, "mesh")
+            m0.points = newpts
+            if how == "reload()":
+                it.call_method(r0, "reload", [])
+                got = r0
+            elif how == "reload(mesh)":
+                it.call_method(r0, "reload", [m0])
+                got = r0
+            elif how == "copy()":
+                got = it.call_method(r0, "copy", [])
+            else:
+                got = it.call_method(r0, "copy", [m0])
+            bad = _same_cached(it, got, fresh)
+            col.add("C06.O7", "Region.%s after the mesh points changed" % how, "the cached arrays are recomputed for the current mesh points (equal to those of a region created on the moved mesh)",
+                    not bad, "%s: stale arrays %s" % (w, bad))
+    finally:
+        ring.ORDER_ORACLE[0] = None
     finish_info(col, it)
 
 
